@@ -37,7 +37,7 @@ CHECKS.update({
     "C02": _conn("C02", "C02.AnsweredAtMostOnce/NoReplyToNotification/AnsweredWhenUsable/DupInflightIdAnswered"),
     "C03": _conn("C03", "C03.DispatchFIFO/NotificationCompletesFirst/NotifyReturnsAfterHandOff"),
     "C04": _conn("C04", "C04.PromptReturn/CancelAnnounced/OnlyMatchingSent/OnlyMatchingCancelled/MatchingHandlerCancelled"),
-    "C05": _conn("C05", "C05.TransportClosedOnlyAfterHandlers/NoDispatchAfterClose/CloseReturns/WaitReturns/Removed/NoLeak/NoPanic"),
+    "C05": _conn("C05", "C05.TransportClosedOnlyAfterHandlers/NoDispatchAfterClose/CloseReturns/WaitReturns/Removed/NoLeak/NoPanic and, on real client/server pairs scripted by PairEnv.tla, C05.PairCloseReturns/PairWaitReturns/PairRemoved/PairNoLeak"),
     "C07": dict(
         engine="Negotiate", category="model_checking",
         text=("NegotiateDefs.tla states C07 as five declarative clauses over (configuration, outcome) plus a check-by-check transcription of the client and "
@@ -152,6 +152,49 @@ CHECKS.update({
         design_ref="DESIGN.md section 6 C19, section 7",
         note="Trusted: TLC; the harness' field-wise JSON comparator (exact numbers via big.Rat); seeded representatives per class; reader-goroutine panics surface only as a process crash.",
         technique="TLA+ decision tables enumerated by TLC; all cases replayed on the real codec and framing; TLA+ monitor; seeded decoder fuzzing",
+    ),
+})
+
+_stream_note = "Trusted: TLC + CommunityModules; testing/synctest; the harness (recording ResponseWriter, store wrapper and gates, goroutine-state polling while a gate is held); MemoryEventStore honouring its contract (C20); seam-level scheduling plus gates; small-scope constants."
+CHECKS.update({
+    "C08": dict(
+        engine="StreamSrv", category="model_checking",
+        text=("StreamSrv.tla models streamableServerConn at lock granularity (routing under c.mu; store-then-deliver and replay/re-attach under the stream lock; detach; finished-stream "
+              "replay) and is model-checked exhaustively for resumption exactness, dense and stable event ids, store-before-deliver and obtainability of the final response (1 session, "
+              "request and standalone stream, <=3 writes, <=3 resumes, writes and replays held inside the lock, with and without priming events). TLC-generated environment scripts "
+              "(transition cover, simulation) plus seeded random ones run on the real StreamableHTTPHandler under synctest; every SSE event of every exchange is judged by the TLA+ "
+              "monitor StreamSrvMon against the ground-truth append order, and every recorded trace must be explained step by step by the specification."),
+        design_ref="DESIGN.md section 6 C08, 5.4", note=_stream_note,
+        technique="TLA+/TLC exhaustive model checking; transition-cover and simulation replay on the real handler; TLA+ monitor; strict trace validation",
+    ),
+    "C10": dict(
+        engine="StreamSrv", category="model_checking",
+        text=("Same specification with 2-3 sessions re-using JSON-RPC ids, 2 concurrent requests per session, SSE/JSON, stateful/stateless, with and without a store. TLC checks "
+              "exhaustively that a response only appears on the exchange or resumed stream of its request, that nested messages go to the request stream (or the standalone stream in "
+              "JSON mode or outside any request), and that nothing crosses sessions; the same replay on the real handler, monitor (C10.* clauses) and strict validation apply."),
+        design_ref="DESIGN.md section 6 C10, 5.4", note=_stream_note + " Responses the SDK makes itself (untagged errors) are attributed by JSON-RPC id only.",
+        technique="TLA+/TLC exhaustive model checking; replay on the real handler; TLA+ monitor; strict trace validation",
+    ),
+    "C11": dict(
+        engine="HttpSess", category="model_checking",
+        text=("The streamable HTTP session table (minting, lookup + user check, DELETE, onClose, failed-initialize cleanup, refs/idle-timer incl. the fired-but-not-run window, graceful "
+              "close under a running tool, stateless mode) is an explicit TLA+ state machine whose C11 invariants TLC checks exhaustively on bounded configurations. TLC generates the "
+              "histories (transition cover of the 3041-state settled graph plus seeded simulations with requests at exactly the idle deadline) that are replayed on the real "
+              "StreamableHTTPHandler + auth.RequireBearerToken in virtual time; a TLA+ monitor judges every response, handler start and Server.Sessions() snapshot; every settled trace "
+              "must also be a behaviour of the model."),
+        design_ref="DESIGN.md section 6 C11, 5.6",
+        note="Trusted: TLC; testing/synctest; the in-process ResponseWriter driver; the harness' id/user bookkeeping; bounds of 2-3 ids, timeout 3-4 ticks, 2-3 concurrent slow POSTs.",
+        technique="TLA+ spec + TLC exhaustive; graph-cover and simulation generation; conformance replay; TLA+ monitor; strict trace validation",
+    ),
+    "C18": dict(
+        engine="Notify", category="model_checking",
+        text=("Notify.tla - the debounce timer states (incl. the fired-but-not-run window), the legacy and subscribed fan-out, the capability gate, URI subscriptions, session lifecycle, "
+              "and the client cache with a two-step fill and two-step notification handling - is checked exhaustively by TLC for all six clauses on bounded configurations, and bound to "
+              "the real mcp.Server and mcp.Client by replaying TLC-generated environment scripts (exhaustive timing-window and cache-race sets, seeded simulations) under synctest, with "
+              "the TLA+ monitor NotifyMon judging the observation log; a per-step comparison of server maps, the pending-timer reference and delivery counts is reported as drift."),
+        design_ref="DESIGN.md section 6 C18, 5.8",
+        note="Trusted: TLC; synctest's virtual clock; net.Pipe in-memory transports; the harness middleware gates and log order; the in-package state snapshot reader.",
+        technique="TLA+ spec + TLC exhaustive; lead replay; scenario conformance on real sessions with a TLA+ monitor",
     ),
 })
 
